@@ -103,6 +103,8 @@ func (e *Engine) Solve(obls []*Obligation, cfg SolveCfg) {
 		qf, full   string
 	}
 	var jobs []job
+	tPrep := time.Now()
+	defer func() { _ = tPrep }()
 	for i, o := range obls {
 		if !o.Cover && o.Goal.IsTrue() {
 			o.Result = &SolveResult{Status: "unsat", Solver: "syntactic"}
@@ -112,9 +114,17 @@ func (e *Engine) Solve(obls []*Obligation, cfg SolveCfg) {
 		if len(base) > 180 {
 			base = base[:180]
 		}
-		o.Hyps = append(o.Hyps, e.umulZeroFacts(o)...)
-		o.Hyps = append(o.Hyps, e.constMulFacts(o)...)
+		if os.Getenv("GOVC_NO_UZ") == "" {
+			o.Hyps = append(o.Hyps, e.umulZeroFacts(o)...)
+		}
+		if os.Getenv("GOVC_NO_CM") == "" {
+			o.Hyps = append(o.Hyps, e.constMulFacts(o)...)
+		}
+		tq := time.Now()
 		qfh := e.PrepareQF(o)
+		if os.Getenv("GOVC_TIMING") != "" && time.Since(tq) > 300*time.Millisecond {
+			fmt.Fprintf(os.Stderr, "  prep %.1fs %s (%d hyps)\n", time.Since(tq).Seconds(), o.Name, len(o.Hyps))
+		}
 		qf := base + ".qf.smt2"
 		os.WriteFile(qf, []byte(e.tb.Script(qfh, nil, true, false)), 0o644)
 		full := ""
@@ -123,6 +133,9 @@ func (e *Engine) Solve(obls []*Obligation, cfg SolveCfg) {
 			os.WriteFile(full, []byte(e.tb.Script(o.Hyps, o.Goal, true, false)), 0o644)
 		}
 		jobs = append(jobs, job{o, qf, full})
+	}
+	if os.Getenv("GOVC_TIMING") != "" {
+		fmt.Fprintf(os.Stderr, "prepare+write %d queries: %.1fs\n", len(jobs), time.Since(tPrep).Seconds())
 	}
 	ch := make(chan job)
 	var wg sync.WaitGroup
